@@ -204,6 +204,10 @@ func init() {
 		c.set(charInt(toLowerChar(c.args[0].(IntV).T)))
 		return nil, false
 	})
+	reg("ClockMaxAdvance", func(c *icall) ([]*State, bool) {
+		c.s.ClockMax = c.args[0].(IntV).T
+		return nil, false
+	})
 	reg("NoPanic", func(c *icall) ([]*State, bool) { c.s.NoPanic = true; return nil, false })
 	reg("Observe", func(c *icall) ([]*State, bool) {
 		iv := c.args[1].(IfaceV)
